@@ -116,9 +116,8 @@ def build(entries, layout: str = "solid", with_crc: bool = True, corrupt: str | 
     names = b"\x00" + b"".join(e["name"].encode("utf-16-le", "surrogatepass") + b"\x00\x00" for e in entries)
     hdr += _prop(0x11, names)
     if any(e["kind"] == "attrdir" for e in entries):
-        # NB: the library's parser reads the attribute words directly after the "all defined" byte
-        # (it does not consume the External byte), so the words are written in the form it parses.
-        body = b"\x01" + b"".join(struct.pack("<I", 0x10 if e["kind"] in ("attrdir", "dir") else 0x20) for e in entries)
+        # all-defined byte, External byte (0), then one attribute word per entry
+        body = b"\x01\x00" + b"".join(struct.pack("<I", 0x10 if e["kind"] in ("attrdir", "dir") else 0x20) for e in entries)
         hdr += _prop(0x15, body)
     hdr.append(0x00)  # end files info
     hdr.append(0x00)  # end header
